@@ -58,6 +58,7 @@ type coreScript struct {
 	CtxVals    [][][]int     `json:"ctx_vals"`  // context contents: [context key, value]
 	CallArgs   [][][]int     `json:"call_args"` // call-site attribute lists: [key, value]
 	FlagSets   [][]string    `json:"flag_sets"` // flag sets (names) used by the flag calls
+	TsLayouts  []string      `json:"ts_layouts"` // candidate layouts for the timestamp observation
 	Behaviours [][]coreEvent `json:"behaviours"`
 }
 
@@ -562,6 +563,34 @@ func (r *coreRun) observe(rec map[string]any) {
 				}
 				o["getw0"] = evs0
 			}
+		}
+		if r.obs["ts"] {
+			// which <layout, zone> pairs explain the time field of a probe record with a fixed instant
+			// in a +05:30 zone (2024-03-01 02:15:07.123456789 +05:30 = 2024-02-29 20:45:07 UTC)
+			tm := time.Date(2024, 3, 1, 2, 15, 7, 123456789, time.FixedZone("", 5*3600+1800))
+			sink.reset()
+			l.WriteThru(context.Background(), slog.InfoLevel, tm, 0, "ts probe", nil)
+			tso := map[string]any{"got": false, "fits": [][]string{}}
+			for _, e := range takeAll() {
+				if e.K != "w" {
+					continue
+				}
+				fits := [][]string{}
+				text, err := tsExtract(shapeOf(e.payload), e.payload)
+				if err == nil {
+					for _, lay := range r.sc.TsLayouts {
+						if text == tm.Format(lay) {
+							fits = append(fits, []string{lay, "Own"})
+						}
+						if text == tm.UTC().Format(lay) {
+							fits = append(fits, []string{lay, "UTC"})
+						}
+					}
+				}
+				tso = map[string]any{"got": true, "fits": fits, "text": text}
+				break
+			}
+			o["ts"] = tso
 		}
 		if r.obs["attrs"] {
 			// the logger's own attributes as they are printed (sorted, last value of a key wins):
